@@ -15,6 +15,7 @@ import (
 	"os"
 	"path/filepath"
 	"reflect"
+	"sort"
 	"strconv"
 	"strings"
 )
@@ -865,6 +866,62 @@ func main() {
 	}
 	w("/-- scheme.go: Decrypt: order of the steps after the options check (first occurrence of each call) -/")
 	w("def decryptOrder : List String := %s", ql(order))
+	w("")
+
+	// ---- BufPool discipline: per function, number of Get and Put call sites, and whether the only Put is a
+	// deferred call in the statement right after the Get (so that every Get is matched by exactly one Put) ----
+	var disc []string
+	var fnames []string
+	for name := range p.funcs {
+		fnames = append(fnames, name)
+	}
+	sort.Strings(fnames)
+	for _, name := range fnames {
+		fd := p.funcs[name]
+		if fd.Body == nil {
+			continue
+		}
+		gets, puts := 0, 0
+		calls(fd, func(c *ast.CallExpr) {
+			switch show(c.Fun) {
+			case "BufPool.Get":
+				gets++
+			case "BufPool.Put":
+				puts++
+			}
+		})
+		if gets == 0 && puts == 0 {
+			continue
+		}
+		deferred := false
+		for i, st := range fd.Body.List {
+			as, ok := st.(*ast.AssignStmt)
+			if !ok || len(as.Rhs) != 1 {
+				continue
+			}
+			found := false
+			calls(as.Rhs[0], func(c *ast.CallExpr) {
+				if show(c.Fun) == "BufPool.Get" {
+					found = true
+				}
+			})
+			if !found || i+1 >= len(fd.Body.List) {
+				continue
+			}
+			if ds, ok := fd.Body.List[i+1].(*ast.DeferStmt); ok {
+				n := 0
+				calls(ds, func(c *ast.CallExpr) {
+					if show(c.Fun) == "BufPool.Put" {
+						n++
+					}
+				})
+				deferred = n == 1
+			}
+		}
+		disc = append(disc, fmt.Sprintf("(%s, %d, %d, %v)", leanStr(name), gets, puts, deferred))
+	}
+	w("/-- scheme.go: per function using BufPool: (name, Get call sites, Put call sites, the Put is a `defer` right after the Get) -/")
+	w("def bufPoolDiscipline : List (String × Nat × Nat × Bool) :=\n  [%s]", strings.Join(disc, ", "))
 	w("")
 	w("end Kit.Enc.Gen")
 
